@@ -191,9 +191,11 @@ def nontrivial(c):
 PROVED_HELPERS = ["set_zf", "set_sf", "set_of", "set_cf", "adc two-step carry", "sbb two-step borrow", "inc/dec/neg/cmp flag forms",
                   "shl/shr/sar CF and result for every masked count", "cc_condition (16 codes)",
                   "X86Register::get/set (64/32/16/8-bit, high byte; bit-vector level both modes' algebra, IL level in 64-bit mode)"]
-MIRRORED_CLASS = "mov add sub cmp and or xor x (register, register), both modes, all sub-register shapes: falcon's dumped IL == X86Lift.liftRR syntactically on every generated case"
-# instruction-level lift_correct is not proved for any class: every mnemonic the dispatcher accepts is covered by the
-# four-way differential only (option (C) of LIFTER_BRIEF); those whose flag/condition/sub-register helpers are proved are marked
+MIRRORED_CLASS = ("instruction-level theorems lift_correct_rr / lift_correct_ri / lift_correct_un (64-bit mode, all five register shapes incl. "
+                  "ah/ch/dh/bh, all registers, all states): {mov add sub cmp and or xor} x (reg,reg | reg,imm of the register's width), "
+                  "{inc dec neg not} x reg; falcon's dumped IL == the mirror X86Lift.liftIns syntactically on every generated case "
+                  "of these classes in BOTH modes (the 32-bit-mode mirror is compared but not covered by the theorems)")
+# every other (mnemonic, form) is covered by the four-way differential only (option (C) of LIFTER_BRIEF)
 UNPROVED_MNEMONICS = sorted("""adc add and bsf bsr bswap bt btc btr bts call cbw cdq cdqe clc cld cmc cmovcc cmp cmpsb cmpxchg cwd cwde dec div idiv imul
 inc jcc jcxz jecxz jmp lea leave lodsb lodsd loop loope loopne mov movabs movaps movapd movd movdqa movdqu movhpd movlpd movnti movq movsb movsw
 movsd movsq movsx movsxd movups movzx mul neg nop not or paddq pause pcmpeqb pcmpeqd pminub pmovmskb pop por prefetch pshufd pslldq psrldq
@@ -206,7 +208,8 @@ def extra_coverage():
         "oracles": ["falcon executor on lifted IL", "Lean IL semantics on dumped IL", "Lean x86 specification (both modes)", "host CPU single-step (amd64)"],
         "proved_helpers": PROVED_HELPERS,
         "mirrored_class_syntactic_check": MIRRORED_CLASS,
-        "unproved_classes": "instruction-level agreement (lift_correct) for every mnemonic: differential only",
+        "proved_instruction_classes": ["amd64 mov/add/sub/cmp/and/or/xor r,r", "amd64 mov/add/sub/cmp/and/or/xor r,imm(width of r)", "amd64 inc/dec/neg/not r"],
+        "unproved_classes": "every memory-operand form, every other mnemonic, and all of 32-bit mode: differential only (unproved_mnemonics lists the mnemonics with at least one unproved form, i.e. all of them)",
         "unproved_mnemonics": UNPROVED_MNEMONICS,
         "lifted_but_not_compared": NOT_COMPARED,
     }
